@@ -23,7 +23,8 @@ def classify(case, detail):
 RULE_B = (" Part (b): histories of 3-8 client requests (2-3 plans over one entity universe, shared operation texts, repeats) over one "
           "resolve.Resolver and one recording cache, each also run without a cache; Cache-Control values per subgraph response from the "
           "part (a) generator (mostly storable), default TTL from a fixed set, cache faults by call index (Get error, Set error, partial Set, "
-          "evictions = partial hits). A history is non-trivial when something was stored and some lookup was a full hit.")
+          "evictions = partial hits); half of the histories are 'focused': one selection on one entity type, 3-5 plans that differ only in which entities "
+          "they ask for (single entities, batches with duplicates), a third of the entities unknown to the subgraph (null inside _entities at any position). A history is non-trivial when something was stored and some lookup was a full hit.")
 
 
 def cache_properties(chk):
@@ -76,10 +77,10 @@ def part_b(chk, state, samples):
     if b:
         vlib.digest_batch(chk, b[0], b[1], classify, state)
         samples += [c[:600] for c in b[0][:2]]
-        tot = {"stored": 0, "hits": 0, "partial": 0, "steps": 0}
+        tot = {"stored": 0, "hits": 0, "partial": 0, "steps": 0, "nullents": 0, "nullbeforeobj": 0}
         for (_, st, d) in b[1]:
             if st == "ok":
-                for k, v in re.findall(r"(stored|hits|partial|steps)=(\d+)", d):
+                for k, v in re.findall(r"(stored|hits|partial|steps|nullents|nullbeforeobj)=(\d+)", d):
                     tot[k] += int(v)
         tot["histories"] = len(b[0])
         tot["cache_fault_calls"] = sum(len(re.findall(r" (?:get_err|set_err|set_partial|evict_one|evict_all)\)", c)) for c in b[0])
